@@ -185,6 +185,13 @@ def _truncate(o, n=1200):
     return o
 
 
+def evaluate_chunked(evaluate, states, report, tier, size=50000):
+    """Runs `evaluate` over consecutive slices of the state list, so that the sources, diagnostics and recorded token trees of at
+    most `size` states are held in memory at a time (the verdict of a state never depends on another state in the checks that use this)."""
+    for i in range(0, len(states), size):
+        evaluate(states[i:i + size], report, tier)
+
+
 def words(alphabet, maxlen, minlen=0):
     """All words over `alphabet` of length minlen..maxlen, shortest first (BFS order).
     Returns (list of tuples, number of transitions = edges of the word tree explored)."""
